@@ -25,7 +25,6 @@ RULES = [
  # ---- G5 guarded conversions
  (r'^value::Value::parse_hexadecimal$', r'^unwrap\|expect', 'G5', 'G5 from_hex(s): s consists of ASCII_HEX_DIGIT only (grammar hex_literal minus `_`), even and non-empty length checked above; UIntValue::try_from(bytes): len = byte_width of a uN with N >= 8 (len 0 rejected by the non-empty test), all of 1,2,4,8,16,32 accepted'),
  (r'^value::Value::parse_hexadecimal$', r'^panic\|panic', 'G5', 'unreachable!: second match on the same ty.as_inner() whose non-UInt/non-Array cases returned Err above'),
- (r'^value::Value::parse_hexadecimal$', r'^assert\|RemainderByZero', 'G6', '% 2 with a constant divisor'),
  (r'^<value::UIntValue as std::convert::TryFrom<&\[u8\]>>::try_from$', r'^(unwrap\|unwrap|assert\|BoundsCheck)', 'G5', 'G5 each arm converts a slice whose length was just matched (1,2,4,8,16,32) into the array of that length'),
  (r'^value::UIntValue::parse_binary$', r'.*', 'G5', 'G5 bit_len is a power of two naming an integer type (both ok_or guards passed): byte_len = ceil(bit_len/8) >= 1, padded_bits has exactly 8*byte_len items (padding = 8 - bit_len for sub-byte widths), so next().unwrap(), bytes[0] and try_from(bytes) (len in 1,2,4,8,16,32) hold; the debug_asserts bound a sub-byte value by its padding; byte << 1 shifts by a constant'),
  (r'^<num::U256 as std::convert::From<u(8|16|32|64|128)>>::from$', r'.*', 'G6', 'constant ranges inside a 32-byte array'),
